@@ -146,6 +146,9 @@ func (f *FS) hook(label, obj string, write bool, lo, hi int64) {
 	}
 }
 
+// Mutations returns the number of mutating calls made so far (fault-injection bookkeeping).
+func (f *FS) Mutations() int { return f.mutations }
+
 func (f *FS) mutate() error {
 	f.mutations++
 	if f.FailAt > 0 && f.mutations == f.FailAt {
